@@ -19,10 +19,12 @@ use tower::{Layer, Service, ServiceExt};
 /// their last byte, only in their first byte or only somewhere in the middle all occur).
 fn peer(n: u64) -> PeerId {
     let mut b = [7u8; 32];
-    let pos = [31usize, 0, 8, 16, 30, 9][(n % 6) as usize];
-    b[pos] = b[pos].wrapping_add(1 + (n / 6) as u8);
-    if n / 6 >= 255 {
-        b[12..20].copy_from_slice(&n.to_le_bytes());
+    if n / 6 < 200 {
+        let pos = [31usize, 0, 8, 16, 30, 9][(n % 6) as usize];
+        b[pos] = b[pos].wrapping_add(1 + (n / 6) as u8);
+    } else {
+        // large populations: the number itself in bytes 20..28, everything else shared
+        b[20..28].copy_from_slice(&n.to_le_bytes());
     }
     PeerId(b)
 }
@@ -39,6 +41,16 @@ fn rt() -> tokio::runtime::Runtime {
 fn auth_case(t: &[&str]) -> String {
     // authallow <csv|-> <threads> <req>*      req = s<id> | n
     // authfn <threads> <req>*                 req = ok | d<status>:<payload>
+    // authallow2 <outer csv|-> <inner csv|-> <threads> <req>*: two allow-list layers stacked, the first one outermost
+    if t[0] == "authallow2" {
+        let mut t2: Vec<&str> = vec!["authallow", t[2], t[3]];
+        t2.extend_from_slice(&t[4..]);
+        return auth_case_stacked(&t2, Some(t[1]));
+    }
+    auth_case_stacked(t, None)
+}
+
+fn auth_case_stacked(t: &[&str], outer: Option<&str>) -> String {
     let allow_mode = t[0] == "authallow";
     let (threads, reqs): (usize, &[&str]) = if allow_mode {
         (t[2].parse().unwrap(), &t[3..])
@@ -86,7 +98,14 @@ fn auth_case(t: &[&str]) -> String {
             t[1].split(',').map(|x| peer(x.parse().unwrap())).collect()
         };
         let svc = RequireAuthorizationLayer::new(AllowedPeers::new(list)).layer(inner);
-        run_threads(svc, threads, requests, fmt)
+        match outer {
+            Some(o) => {
+                let olist: Vec<PeerId> = if o == "-" { vec![] } else { o.split(',').map(|x| peer(x.parse().unwrap())).collect() };
+                let svc = RequireAuthorizationLayer::new(AllowedPeers::new(olist)).layer(svc);
+                run_threads(svc, threads, requests, fmt)
+            }
+            None => run_threads(svc, threads, requests, fmt),
+        }
     } else {
         let auth = |request: &mut Request<Bytes>| -> Result<(), Response<Bytes>> {
             let v = request.headers().get("v").cloned().unwrap_or_default();
@@ -312,6 +331,63 @@ fn inflight_case(t: &[&str]) -> String {
     out.join(" ")
 }
 
+/// inflightburst <block|err> <max> <k> <npeers>: the first k requests of each of npeers never-seen peers are handed to
+/// the layer back to back - every `call()` is made before any of the returned futures is polled - then run.
+/// Reports per peer how many are inside the wrapped service, how many were refused, how many wait.
+fn inflightburst_case(t: &[&str]) -> String {
+    use tower::Service as _;
+    let mode = if t[1] == "block" { inflight_limit::WaitMode::Block } else { inflight_limit::WaitMode::ReturnError };
+    let max: usize = t[2].parse().unwrap();
+    let k: usize = t[3].parse().unwrap();
+    let npeers: u64 = t[4].parse().unwrap();
+    let inside: Arc<Mutex<HashMap<u64, usize>>> = Default::default();
+    let inside2 = inside.clone();
+    let inner = tower::service_fn(move |req: Request<Bytes>| {
+        let p: u64 = req.headers().get("p").unwrap().parse().unwrap();
+        *inside2.lock().unwrap().entry(p).or_insert(0) += 1;
+        async move {
+            std::future::pending::<()>().await;
+            Ok::<_, anemo::rpc::Status>(Response::new(Bytes::new()))
+        }
+    });
+    let svc = InflightLimitLayer::new(max, mode).layer(inner);
+    let rt = rt();
+    rt.block_on(async move {
+        let mut futs = Vec::new();
+        for p in 1..=npeers {
+            for _ in 0..k {
+                let req = Request::new(Bytes::new()).with_header("p", p.to_string()).with_extension(peer(p));
+                let mut s = svc.clone();
+                futs.push((p, s.call(req)));
+            }
+        }
+        let handles: Vec<(u64, tokio::task::JoinHandle<_>)> = futs.into_iter().map(|(p, f)| (p, tokio::spawn(f))).collect();
+        for _ in 0..200 {
+            tokio::task::yield_now().await;
+        }
+        let mut out = Vec::new();
+        for p in 1..=npeers {
+            let entered = inside.lock().unwrap().get(&p).copied().unwrap_or(0);
+            let mut refused = 0;
+            let mut waiting = 0;
+            for (q, h) in handles.iter() {
+                if *q == p {
+                    if h.is_finished() {
+                        refused += 1;
+                    } else {
+                        waiting += 1;
+                    }
+                }
+            }
+            out.push(format!("p{p}:inside={entered},refused={refused},pending={}", waiting));
+        }
+        for (_, h) in handles {
+            h.abort();
+        }
+        out.join(" ")
+    })
+}
+
 // ---------------------------------------------------------------- rate limit
 
 fn gcra_case(t: &[&str]) -> String {
@@ -458,8 +534,9 @@ fn ratezero_case(t: &[&str]) -> String {
 pub fn run() {
     for_each_case(|t| {
         catch(|| match t[0] {
-            "authallow" | "authfn" => auth_case(t),
+            "authallow" | "authallow2" | "authfn" => auth_case(t),
             "inflight" => inflight_case(t),
+            "inflightburst" => inflightburst_case(t),
             "gcra" => gcra_case(t),
             "ratelayer" => ratelayer_case(t),
             "ratezero" => ratezero_case(t),
